@@ -120,6 +120,7 @@ def evaluate(sid, checks, tier="quick", seed=None):
         rc, out = sh("patch -p1 -s --fuzz=3 < %s && find src -name '*.orig' -delete" % os.path.join(dst, "patch.diff"), cwd="/repo")
         if rc != 0:
             sh(["git", "-C", "/repo", "checkout", "--", "."])
+            sh("find src \\( -name '*.orig' -o -name '*.rej' \\) -delete", cwd="/repo")
             print(sid, "SKIPPED: patch no longer applies:", out[-200:])
             return {}
     res = {}
